@@ -611,6 +611,9 @@ impl<'a> GeneralCheck<'a> {
                     let check_rec =
                         |(i, op)| self.name_references_rule(cst, sema, rule, op).then_some(i);
                     let left_rec = concat_ops.next().and_then(check_rec);
+                    let mut concat_ops = concat_ops.peekable();
+                    // a branch that only consists of the reference has no operator
+                    let left_rec = left_rec.filter(|_| concat_ops.peek().is_some());
                     let right_rec = concat_ops.last().and_then(check_rec);
 
                     if left_rec.is_some()
